@@ -263,9 +263,9 @@ func init() {
 			Old: "case (r == '.' || r == ')') && (n >= len(s)", New: "case r == '.' && (n >= len(s)", Expect: "FMT-ESC/byte-0x29",
 			Why: "the defect repaired by /repo 87435c0: '1\\) a' came back as an ordered list"},
 		Control{Name: "escape-table-without-tilde", Props: []string{"C20"}, File: "format/format.go",
-			Old:   "case strings.ContainsRune(`\\[]*_-+=<>&#~`+\"`\", r):",
-			New:   "case r < utf8.RuneSelf && escapedPunctuation[r]:",
-			Edits: [][2]string{{"const codeBlockIndentLimit = 4\n", "const codeBlockIndentLimit = 4\n\nvar escapedPunctuation = [utf8.RuneSelf]bool{'\\\\': true, '`': true, '[': true, ']': true, '*': true, '_': true, '<': true, '>': true, '&': true, '#': true, '-': true, '+': true, '=': true}\n"}},
+			Old:    "case strings.ContainsRune(`\\[]*_-+=<>&#~`+\"`\", r):",
+			New:    "case r < utf8.RuneSelf && escapedPunctuation[r]:",
+			Edits:  [][2]string{{"const codeBlockIndentLimit = 4\n", "const codeBlockIndentLimit = 4\n\nvar escapedPunctuation = [utf8.RuneSelf]bool{'\\\\': true, '`': true, '[': true, ']': true, '*': true, '_': true, '<': true, '>': true, '&': true, '#': true, '-': true, '+': true, '=': true}\n"}},
 			Expect: "FMT-ESC/byte-0x7e", Why: "a lookup table that forgot '~' ('\\~~~' opens a code fence)"},
 		Control{Name: "neg-escape-table-complete", Props: []string{"C20"}, File: "format/format.go", Negative: true,
 			Old:   "case strings.ContainsRune(`\\[]*_-+=<>&#~`+\"`\", r):",
